@@ -222,10 +222,9 @@ theorem parseWith_no_fault (hT : Tame S inv μ) (fuel : Nat) (s : σ) (hs : inv 
   intro f
   unfold parseWith
   simp only
-  have hg : Good inv ({ src := s, tokens := [], depth := 0, fault := .none } : Parser σ) := ⟨hs, rfl⟩
-  have h1 := topLoop_spec hT fuel [] _ hg (by unfold size; simpa using hf)
-  have h2 : Good inv (checkStatementDepthIsZero S
-      (topLoop S fuel [] { src := s, tokens := [], depth := 0, fault := .none }).2) := by
+  have hg : Good inv (initParser s) := ⟨hs, rfl⟩
+  have h1 := topLoop_spec hT fuel [] _ hg (by unfold size initParser; simpa using hf)
+  have h2 : Good inv (checkStatementDepthIsZero S (topLoop S fuel [] (initParser s)).2) := by
     unfold checkStatementDepthIsZero
     split
     · exact h1
